@@ -24,7 +24,9 @@ var noopMethods = map[string]bool{
 	"time.Sleep": true, "runtime.Gosched": true, "(*time.Ticker).Stop": true, "(*time.Timer).Stop": true,
 }
 
-var logMethodNames = map[string]bool{"Debug": true, "Info": true, "Warn": true, "Error": true, "Crit": true, "Trace": true}
+var writingBuiltin = map[string]bool{"append": true, "copy": true, "delete": true, "clear": true, "panic": true, "close": true}
+
+var logMethodNames =map[string]bool{"Debug": true, "Info": true, "Warn": true, "Error": true, "Crit": true, "Trace": true}
 
 func (u *Unit) calleeName(c *ssa.CallCommon) string {
 	if c.IsInvoke() {
@@ -114,7 +116,7 @@ func fnIsReadOnly(fn *ssa.Function) bool {
 				return false
 			case ssa.CallInstruction:
 				c := i.Common()
-				if b, ok := c.Value.(*ssa.Builtin); ok && (b.Name() == "len" || b.Name() == "cap") {
+				if b, ok := c.Value.(*ssa.Builtin); ok && !writingBuiltin[b.Name()] {
 					continue
 				}
 				if f := c.StaticCallee(); f != nil && f != fn && len(f.Blocks) > 0 && len(f.Blocks) <= 8 && fnIsReadOnlyShallow(f) {
@@ -151,7 +153,7 @@ func fnIsReadOnlyShallow(fn *ssa.Function) bool {
 			case *ssa.MapUpdate, *ssa.Go, *ssa.Send, *ssa.Select, *ssa.Defer:
 				return false
 			case ssa.CallInstruction:
-				if b, ok := i.Common().Value.(*ssa.Builtin); ok && (b.Name() == "len" || b.Name() == "cap") {
+				if b, ok := i.Common().Value.(*ssa.Builtin); ok && !writingBuiltin[b.Name()] {
 					continue
 				}
 				return false
@@ -690,8 +692,17 @@ func (u *Unit) applyContract(fr *Frame, ct *Contract, name string, c *ssa.CallCo
 	env2 := u.contractEnv(ct, params, args, st, old)
 	bindResults(env2, res, resNames)
 	for _, en := range ct.Ensures {
+		// a clause that talks about the callee's locals (or its own callees' results) is internal to
+		// the callee: the caller simply does not get it
+		f, ok := u.tryEvalBool(en.Expr, env2)
+		if ok {
+			u.assume(reach, f)
+		}
+	}
+	for _, en := range ct.AssumedEnsures {
 		f := u.evalBool(en.Expr, env2)
 		u.assume(reach, f)
+		u.note("assumed (definitional) postcondition of " + name + ": " + en.Src)
 	}
 	return res
 }
